@@ -289,6 +289,52 @@ def _np_where(m, a, b):
     return Arr(pick(a, i) if mm else pick(b, i) for i, mm in enumerate(m.d))
 
 
+def _np_pair(f):
+    """elementwise binary function with numpy broadcasting of a scalar operand"""
+    def g(a, b):
+        if isinstance(a, (list, tuple)):
+            a = Arr(a)
+        if isinstance(b, (list, tuple)):
+            b = Arr(b)
+        if isinstance(a, Arr):
+            return a._bin(b, f)
+        if isinstance(b, Arr):
+            return b._rbin(a, f)
+        if _num(a) and _num(b):
+            return f(a, b)
+        raise Unsupported("operands of an elementwise numpy function")
+    return g
+
+
+def _np_choose(a, choices, *rest, **kw):
+    """np.choose(a, choices) with the default mode='raise': result[i] = choices[a[i]][i]"""
+    if rest or kw or not isinstance(a, Arr) or not isinstance(choices, (list, tuple)):
+        raise Unsupported("np.choose form")
+    out = []
+    for i, k in enumerate(a.d):
+        if isinstance(k, bool) or not isinstance(k, int):
+            raise Unsupported("np.choose selector")
+        if not 0 <= k < len(choices):
+            raise Raised("np.choose: invalid entry in choice array")
+        c = choices[k]
+        if isinstance(c, Arr):
+            if len(c) != len(a):
+                raise Raised("shape mismatch")
+            out.append(c.d[i])
+        elif _num(c):
+            out.append(c)
+        else:
+            raise Unsupported("np.choose choice")
+    return Arr(out)
+
+
+def _np_clip(x, lo, hi):
+    f = lambda v: min(max(v, lo), hi)
+    if not (_num(lo) and _num(hi)):
+        raise Unsupported("np.clip bounds")
+    return Arr(f(v) for v in x.d) if isinstance(x, Arr) else f(x)
+
+
 def _rect(r, phi):
     return cmath.rect(r, phi)
 
@@ -316,6 +362,7 @@ FUNCS = {
     "np.any": lambda m: any(m.d if isinstance(m, Arr) else m), "np.all": lambda m: all(m.d if isinstance(m, Arr) else m),
     "np.logical_not": _elementwise(lambda x: not x), "np.logical_and": lambda a, b: a._bin(b, lambda x, y: bool(x and y)),
     "np.logical_or": lambda a, b: a._bin(b, lambda x, y: bool(x or y)),
+    "np.minimum": _np_pair(min), "np.maximum": _np_pair(max), "np.choose": _np_choose, "np.clip": _np_clip,
     "np.mod": lambda a, b: BIN[ast.Mod](a, b), "np.isclose": lambda a, b, *r, **k: abs(a - b) <= 1e-8,
     "np.concatenate": lambda xs, *a, **k: Arr(v for x in xs for v in (x.d if isinstance(x, Arr) else x)),
     "np.full": lambda n, v, *a, **k: Arr([v] * n) if isinstance(n, int) else (_ for _ in ()).throw(Unsupported("np.full shape")),
